@@ -127,6 +127,9 @@ def num_eq(a, b):
     """z3 term: numeric cell equality (ints exactly; floats exactly as reals)"""
     def term(x):
         if isinstance(x, BV):
+            t = z3.simplify(x.term)
+            if z3.is_bv_value(t):
+                return z3.IntVal(t.as_signed_long() if x.signed else t.as_long())
             return z3.BV2Int(x.term, is_signed=x.signed)
         if isinstance(x, (Z, R)):
             return x.z3()
